@@ -588,6 +588,8 @@ fn Q_nrb_non_biomass_an(
     if !dhw_used_by_cr_no_aux_or_low_scop.is_empty() {
         // Energía usada en vectores nearby que no son biomasa
         for (carrier, us) in dhw_used_by_cr_no_aux_or_low_scop {
+            #[cfg(feature = "verif_hooks")]
+            crate::verif_hooks::observe("cte::Q_nrb_non_biomass_an::carrier", carrier.to_string());
             if carrier.is_nearby() && *carrier != BIOMASA && *carrier != BIOMASADENSIFICADA {
                 tot += us;
                 ren += us * get_fpA_del_ren_fraction(*carrier, &ep.wfactors)?;
